@@ -267,7 +267,7 @@ def xml_leaf(rng):
         return rng.choice(["on:off", "xs:thing", "a < b", "x & y", "n:1"])
     if m == 4:
         return [1, 2.5, "w"]
-    return rng.choice(["plain", "two words", "äö 日本", "C:/path/x"])
+    return rng.choice(["plain", "two words", "äö 日本", "C:/path/x", "O'Brien", 'say "hi" now', "3\" pipe", "it's {a}; (b)", "'quoted'"])
 
 
 def enc_elem(e: ET.Element) -> str:
